@@ -422,6 +422,25 @@ func init() {
 					c05Check(c, sub, m)
 				}
 				c.Obs("token_mutants", int64(len(tms)))
+				// a stray byte far behind the value: beyond the bytes a stream decoder has already
+				// read (first read 511 bytes, then 512, 1024 ...), and beyond a whole further read
+				far := 0
+				for _, n := range []int{1, 400, 505, 508, 509, 510, 511, 512, 513, 600, 1020, 1023, 1024, 1030, 1535, 1536, 2047, 2048, 3000, 5000} {
+					pad := n - len(doc)
+					if pad < 0 {
+						pad = n
+					}
+					g := []string{"x", "]", "1", ",", "}", "\"s\"", "\x00"}[(n+c.Idx)%7]
+					for _, ws := range []string{" ", "\n", "\t\r\n "} {
+						sub++
+						far++
+						c05Check(c, sub, append(append(append([]byte{}, doc...), bytes.Repeat([]byte(ws), pad/len(ws)+1)...), g...))
+					}
+					sub++
+					far++
+					c05Check(c, sub, append(append(bytes.Repeat([]byte(" "), pad+1), doc...), g...))
+				}
+				c.Obs("far_trailing_texts", int64(far))
 				c.Obs("mutation_docs", 1)
 				c.Obs("mutants", int64(sub))
 				c.Sample(map[string]any{"family": "mutation", "base": string(doc), "mutants": sub})
